@@ -282,6 +282,22 @@ func IsStrictDER(sig []byte) bool {
 	return true
 }
 
+// DecodeStrictDER decodes a signature INCLUDING its trailing hash-type byte that
+// satisfies BIP66's IsValidSignatureEncoding; ok is false for any other encoding.
+// The integers are read exactly as encoded (BIP66 guarantees they are positive
+// and minimally encoded).
+func DecodeStrictDER(sigWithHashType []byte) (r, s *big.Int, hashType byte, ok bool) {
+	if !IsStrictDER(sigWithHashType) {
+		return nil, nil, 0, false
+	}
+	b := sigWithHashType
+	lenR := int(b[3])
+	lenS := int(b[5+lenR])
+	r = refsecp.Int(b[4 : 4+lenR])
+	s = refsecp.Int(b[6+lenR : 6+lenR+lenS])
+	return r, s, b[len(b)-1], true
+}
+
 // IsLowS: s <= (n-1)/2 (BIP146 LOW_S; Core's CheckLowS via signature_normalize).
 func IsLowS(s *big.Int) bool { return s.Sign() >= 0 && s.Cmp(refsecp.HalfN) <= 0 }
 
